@@ -17,7 +17,12 @@ Definition parse_value_grammar_statement : Prop :=
     exists v r k e, json_decoder_parseValue fuel d b = Some (v, r, k, e) /\
       (e = None <-> exists r', g_value (S (length b)) b = Some r') /\
       (e = None -> g_value (S (length b)) b = Some r /\ b = v ++ r).
+(* the flags json.Valid computes on its (left-trimmed) input are sound for it and for every suffix of it.
+   Without the left-trim hypothesis the statement is false: see internal_flags_sound_untrimmed_statement below. *)
 Definition internal_flags_sound_statement : Prop :=
+  forall b fuel d, wfb b = true -> len b < 2 ^ 62 -> (length b + 2 <= fuel)%nat -> skip_ws b = b ->
+    json_internalParseFlags fuel b = Some d -> flags_sound d b /\ forall suffix pre, b = pre ++ suffix -> flags_sound d suffix.
+Definition internal_flags_sound_untrimmed_statement : Prop :=
   forall b fuel d, wfb b = true -> len b < 2 ^ 62 -> (length b + 2 <= fuel)%nat ->
     json_internalParseFlags fuel b = Some d -> flags_sound d b /\ forall suffix pre, b = pre ++ suffix -> flags_sound d suffix.
 Definition valid_agrees_statement : Prop :=
@@ -33,6 +38,15 @@ Definition needs_escape_json (html : bool) (c : Z) : bool :=
   (c <? 32) || (127 <? c) || (c =? 34) || (c =? 92) || (html && ((c =? 60) || (c =? 62) || (c =? 38))).
 Fixpoint first_index (p : Z -> bool) (i : Z) (s : bytes) : Z :=
   match s with [] => -1 | c :: r => if p c then i else first_index p (i + 1) r end.
+(* What escapeIndex guarantees (and all its caller encodeString needs): -1 exactly when no byte needs an escape,
+   otherwise a position at or before the first such byte. It does NOT return the index of that byte, contrary to
+   its documentation: inside the word loop the chunk offset is not added (escape_index_doc_statement is refuted). *)
 Definition escape_index_statement : Prop :=
+  forall s html fuel, wfb s = true -> len s < 2 ^ 62 -> (length s + 2 <= fuel)%nat ->
+    exists r, json_escapeIndex fuel s html = Some r /\
+      let fi := first_index (needs_escape_json html) 0 s in
+      (fi = -1 -> r = -1) /\
+      (0 <= fi -> 0 <= r <= fi /\ r = if fi <? 8 * (len s / 8) then fi mod 8 else fi).
+Definition escape_index_doc_statement : Prop :=
   forall s html fuel, wfb s = true -> len s < 2 ^ 62 -> (length s + 2 <= fuel)%nat ->
     json_escapeIndex fuel s html = Some (first_index (needs_escape_json html) 0 s).
